@@ -309,7 +309,7 @@ theorem fixOrigin_ok (from_ tramp : BitVec 64) (trampSize : Nat) (prog : List In
       data.length ≤ trampSize ∧ 13 < trampSize ∧ (13 ≤ n ∨ n = progLen prog) ∧
       (n < progLen prog →
         data = fixed ++ Gen.Amd64.jmpToOriginFunctionValue (tramp + BitVec.ofNat 64 fixed.length) (from_ + BitVec.ofNat 64 n)) ∧
-      (¬ n < progLen prog → data = progBytes prog) := by
+      (¬ n < progLen prog → data = fixed) := by
   unfold fixOrigin at h
   simp only [] at h
   split at h
